@@ -78,7 +78,7 @@ def random_dev(rng: random.Random, nf: int) -> dict:
 def record_trace(rng: random.Random, deviate: bool, big: bool, with_writes: bool):
     nm = rng.choice(
         [{"dev": "dev", "exp": "dev"}, {"dev": "dev", "exp": "none"}, {"dev": "none", "exp": "dev"}, {"dev": "none", "exp": "none"},
-         {"dev": "other-name", "exp": "none"}] + ([] if deviate else [{"dev": "oth", "exp": "dev"}])
+         {"dev": "other-name", "exp": "none"}, {"dev": "", "exp": "none"}] + ([] if deviate else [{"dev": "oth", "exp": "dev"}, {"dev": "", "exp": "dev"}])
     )
     m = rng.randrange(0, 21 if big else 6)
     plens = []
